@@ -112,7 +112,10 @@ struct GenState {
       BreakPoint bp = this->out.line_info[this->getNextPos() - 1];
       this->out.line_info.erase(
           this->out.line_info.find(this->getNextPos() - 1));
-      this->out.potential_breaks.erase(this->out.potential_breaks.find(bp));
+      // only this site goes away; the line may own earlier sites
+      auto pb = this->out.potential_breaks.find(bp);
+      std::erase(pb->second, this->getNextPos() - 1);
+      if (pb->second.empty()) this->out.potential_breaks.erase(pb);
       out.code.pop_back();
     }
   }
